@@ -9,6 +9,10 @@ CHECKS={
         "All reachable states of the real registry for <= 3 types x 3 values x <= 3 scopes (266 304 states thorough, 4 368 quick) are enumerated; from each one every operation of a ~130-operation alphabet is executed on a freshly rebuilt real object and compared (return value and full dump of every scope) with a stack of typed maps. A second search without state merging covers hidden state up to history length 4 (quick) / 5 (thorough).",
         "More types / values / scopes are assumed uniform (per-scope HashMap keyed by TypeId, values never inspected). No guard is alive between operations (C02 covers live guards).",
         "DESIGN.md 5 C01"),
+ "C02":("explicit-state BFS by history replay + exhaustive enumeration","explicit-state BFS over all reachable (cell value, live guard) states of the real dynamic-borrow machinery with guards held across requests; exhaustive enumeration of 730 type tuples x 2 registry shapes for the multi-borrow; exhaustive enumeration of all holding nestings of depth <= 3 with every single failing closure",
+        "Borrow machine: every reachable state of 3 cells (same type in two scopes, a second type) with <= 3 (quick) / 4 (thorough) live guards; from each state every accessor (8 borrow flavours, value get/set) on every path plus release/read/write of every live guard runs on the real registry and is compared with a readers-xor-writer model; a grant the model refuses is a violation. Multi-borrow: all tuples of arity 2..8 over a 2-type universe plus distinct / one-duplicate / one-missing tuples over 8 types, on flat and shadowed registries. holding: all nestings up to depth 3 with all fault positions; state must be back in its scope with the closure's writes.",
+        "Guards live in a harness Vec while requests go through &State; &mut-API operations cannot coexist with guards (compiler) and are covered in C01. More than 3 cells / 4 guards assumed uniform (one RefCell per entry).",
+        "DESIGN.md 5 C02"),
  "C04":("explicit-state BFS by history replay","explicit-state breadth-first search over all reachable population stacks of the real Populations type and utility components (history replay per transition) against a Vec<Vec<Tag>> reference",
         "All reachable stacks up to the height / population-size bound (tags renamed in order of first appearance) are enumerated on the real Populations; from each, every accessor, edit, rotation and population-utility component is executed on a freshly rebuilt real object and compared with a plain stack; rotation is checked for 'exactly the top n shift by one' and separately for the documented direction.",
         "Larger heights and population sizes are assumed uniform; tags are opaque to every stack operation, objective ranks are kept in the key because the split component reads them.",
